@@ -1,18 +1,18 @@
 #!/bin/bash
-# usage: tools_seed_check.sh <seed dir under /verif/seeded> [property ids to check...]
-# Applies the seeded change to /repo's working tree, runs the checks, restores /repo.
-# Only run when no other job is building against /repo.
+# usage: tools_seed_check.sh <seed id under /verif/seeded> [property ids to check...]
+# Applies the seeded change to a scratch worktree of /repo's HEAD and runs the checks against
+# it (VERIF_REPO), leaving /repo itself untouched; evidence files are restored afterwards.
 set -u
 D=/verif/seeded/$1; shift
 IDS="$@"
 [ -z "$IDS" ] && IDS=$(python3 -c "import json;print(json.load(open('$D/meta.json'))['property'])")
-cd /repo || exit 2
-if ! git diff --quiet; then echo "/repo has local changes; refusing"; exit 2; fi
-git apply "$D/patch.diff" || { echo "patch does not apply to the current tree"; exit 3; }
+W=/tmp/seedrun_$$
+git -C /repo worktree add -q --detach $W HEAD || exit 2
+if ! git -C $W apply "$D/patch.diff"; then echo "patch does not apply to the current tree"; git -C /repo worktree remove --force $W; exit 3; fi
 for id in $IDS; do
-  ( cd /verif && ./check $id --tier quick > "$D/check_$id.log" 2>&1; echo "exit=$?" >> "$D/check_$id.log" )
-  echo "== $id: $(grep -c '^VIOLATION' $D/check_$id.log) VIOLATION line(s), $(tail -1 $D/check_$id.log)"
-  grep '^VIOLATION' -A1 "$D/check_$id.log" | head -6
+  ( cd /verif && VERIF_REPO=$W ./check $id --tier quick > "$D/check_$id.log" 2>&1; echo "exit=$?" >> "$D/check_$id.log" )
+  echo "== seed $(basename $D) vs check $id: $(grep -c '^VIOLATION' $D/check_$id.log) VIOLATION line(s), $(tail -1 $D/check_$id.log)"
+  grep '^VIOLATION' -A1 "$D/check_$id.log" | head -4 | cut -c1-300
+  ( cd /verif && git checkout -q -- evidence/$id.json 2>/dev/null )
 done
-git -C /repo checkout -- .
-git -C /repo status --short | head -3
+git -C /repo worktree remove --force $W
